@@ -28,11 +28,14 @@ Endpoints == {"proxy", "authonly", "userinfo", "sign_in", "start", "static", "ro
 Methods == {"GET", "POST", "OPTIONS", "HEAD", "DELETE"}
 \* which bypass the REQUEST matches (route: path under /open; ip: trusted source address), or which one it only CLAIMS to match through
 \* client-supplied headers the proxy must ignore with reverse-proxy off (X-Forwarded-Uri: /open/x ; X-Forwarded-For / X-Real-Ip: trusted address)
-Bypass  == {"none", "route", "ip", "spoof_uri", "spoof_ip"}
+\* with reverse-proxy mode ON (cfg.rp) the client address is what the configured header (X-Real-IP) says: "ip" then means a trusted
+\* address in that header (from an untrusted peer); "peer_garbage" / "peer_absent": the PEER is a trusted address but the header is
+\* unparsable / missing - the client address is unknown, which is not a bypass
+Bypass  == {"none", "route", "ip", "spoof_uri", "spoof_ip", "peer_garbage", "peer_absent"}
 RealBypass == {"route", "ip"}
 ErrModes == {"page", "force_json", "accept_json", "api_route"}
 
-Cfgs == [store : {"cookie", "redis"}, preflight : BOOLEAN, forceJSON : BOOLEAN, spb : BOOLEAN, bearer : BOOLEAN, htpasswd : BOOLEAN, customPrefix : BOOLEAN]
+Cfgs == [store : {"cookie", "redis"}, preflight : BOOLEAN, forceJSON : BOOLEAN, spb : BOOLEAN, bearer : BOOLEAN, htpasswd : BOOLEAN, customPrefix : BOOLEAN, rp : BOOLEAN]
 
 \* ---- requirement -------------------------------------------------------------------------------
 UserAuthorised(u) == u = "alice"
@@ -72,7 +75,7 @@ Impl_Class(r, cfg) ==
 \* ---- cases ---------------------------------------------------------------------------------------
 Mk(cfg, cred, u, ep, m, bp, em) == [cfg |-> cfg, cred |-> cred, user |-> u, endpoint |-> ep, method |-> m, bypass |-> bp, errmode |-> em]
 
-DefaultCfg(cfg) == ~cfg.preflight /\ ~cfg.forceJSON /\ ~cfg.spb /\ cfg.bearer /\ cfg.htpasswd /\ ~cfg.customPrefix
+DefaultCfg(cfg) == ~cfg.preflight /\ ~cfg.forceJSON /\ ~cfg.spb /\ cfg.bearer /\ cfg.htpasswd /\ ~cfg.customPrefix /\ ~cfg.rp
 InScope(c) ==
     /\ (c.cred = "ticket_no_entry" => c.cfg.store = "redis")
     /\ (c.errmode = "force_json" <=> c.cfg.forceJSON)
@@ -80,9 +83,12 @@ InScope(c) ==
     /\ (c.errmode # "page" => c.endpoint = "proxy")
     /\ (c.user # "alice" => c.cred \in {"valid", "aged_valid", "bearer_valid", "expired", "valid_plus_badbearer"})
     /\ (c.user = "erin" => c.cred = "bearer_valid")
-    /\ (c.bypass \in {"spoof_uri", "spoof_ip"} => c.endpoint \in {"proxy", "authonly"} /\ c.errmode \in {"page", "force_json", "accept_json"})
+    /\ (c.bypass \in {"spoof_uri", "spoof_ip"} => c.endpoint \in {"proxy", "authonly"} /\ c.errmode \in {"page", "force_json", "accept_json"} /\ ~c.cfg.rp)
+    /\ (c.bypass \in {"peer_garbage", "peer_absent"} <=> (c.cfg.rp /\ c.bypass \notin {"none", "route", "ip"}))
+    /\ (c.cfg.rp => c.endpoint \in {"proxy", "authonly"} /\ c.errmode = "page" /\ c.method = "GET" /\ c.cfg.store = "cookie"
+                    /\ c.cred \in {"none", "valid", "tamper_sig", "bearer_valid"})
     /\ (c.endpoint \notin {"proxy", "authonly", "userinfo"} => c.method = "GET" /\ c.bypass = "none" /\ c.errmode = "page"
-                                                             /\ (DefaultCfg(c.cfg) \/ [c.cfg EXCEPT !.customPrefix = FALSE] \in {x \in Cfgs : DefaultCfg(x)})
+                                                             /\ (DefaultCfg(c.cfg) \/ DefaultCfg([c.cfg EXCEPT !.customPrefix = FALSE]))
                                                              /\ c.cred \in {"none", "valid", "expired", "bearer_valid"})
     /\ (c.endpoint = "old_prefix" <=> (c.cfg.customPrefix /\ c.endpoint \notin {"proxy", "authonly", "userinfo", "sign_in", "start", "static", "robots", "ping"}))
     /\ (c.cfg.customPrefix => c.cred \in {"none", "valid", "expired", "tamper_sig", "bearer_valid", "basic_valid"} /\ c.errmode = "page" /\ c.method = "GET"
@@ -100,10 +106,13 @@ InScope(c) ==
           /\ (c.method = "POST" => c.cred \in {"none", "valid", "expired", "bearer_valid"})
           /\ (c.method \in {"HEAD", "DELETE"} => c.cred \in {"none", "valid", "tamper_sig"} /\ c.user = "alice" /\ DefaultCfg(c.cfg))
           /\ (c.errmode \in {"accept_json", "api_route"} => c.cred \in {"none", "valid", "expired", "tamper_value", "bearer_otherkey"} /\ c.method = "GET")
-          /\ (~DefaultCfg(c.cfg) => Cardinality({f \in {"preflight", "forceJSON", "spb", "customPrefix"} : c.cfg[f]} \cup {f \in {"bearer", "htpasswd"} : ~c.cfg[f]}) = 1))
+          /\ (~DefaultCfg(c.cfg) => Cardinality({f \in {"preflight", "forceJSON", "spb", "customPrefix", "rp"} : c.cfg[f]} \cup {f \in {"bearer", "htpasswd"} : ~c.cfg[f]}) = 1))
 
 VARIABLE c
-Init == \E cfg \in Cfgs, cred \in Creds, u \in Users, ep \in Endpoints, m \in Methods, bp \in Bypass, em \in ErrModes :
+\* (the configurations of the tier are selected first: the nested enumeration below then only runs over those)
+Away(cfg) == Cardinality({f \in {"preflight", "forceJSON", "spb", "customPrefix", "rp"} : cfg[f]} \cup {f \in {"bearer", "htpasswd"} : ~cfg[f]})
+TierCfgs == IF Tier = "quick" THEN {cfg \in Cfgs : Away(cfg) <= 1} ELSE Cfgs
+Init == \E cfg \in TierCfgs, cred \in Creds, u \in Users, ep \in Endpoints, m \in Methods, bp \in Bypass, em \in ErrModes :
           c = Mk(cfg, cred, u, ep, m, bp, em) /\ InScope(c)
 Next == UNCHANGED c
 
